@@ -1,11 +1,12 @@
 import TabulaModel.Util
 import TabulaModel.Model.Detect
 import TabulaModel.Model.Drm
+import TabulaModel.Model.Admit
 /-
 Line protocol of C20 (see harness/c20/c20.go for the wire format).
 -/
 namespace Tabula.C20H
-open Tabula Tabula.Detect Tabula.Drm
+open Tabula Tabula.Detect Tabula.Drm Tabula.Admit
 
 def unhexS (s : String) : Option Str := (unhex s).map (·.map (·.toNat))
 
@@ -43,6 +44,143 @@ def parseDMember (s : String) : Option DMember :=
 def parseDMembers (s : String) : Option (List DMember) :=
   if s == "-" then some [] else (s.splitOn ",").mapM parseDMember
 
+
+/-! ### wire format of the API ops (see harness/c20/api.go) -/
+
+/-- entries of a parsable encryption.xml: `algohex.urihex` joined by `;` (`""` = none) -/
+def parseEntries (s : String) : Option (List Entry) :=
+  if s == "" then some []
+  else (s.splitOn ";").mapM fun t =>
+    match t.splitOn "." with
+    | [a, u] => do let a ← unhexS a; let u ← unhexS u; pure (⟨a, u⟩ : Entry)
+    | _ => none
+
+/-- `namehex[:d=<contenthex>][:e=B|:e=<entries>]` -/
+def parseAMember (s : String) : Option AMember :=
+  match s.splitOn ":" with
+  | [] => none
+  | n :: opts => do
+    let n ← unhexS n
+    opts.foldlM (init := ({ name := n } : AMember)) fun m o =>
+      if o.startsWith "d=" then do
+        let d ← unhexS (o.drop 2).toString
+        pure { m with data := some d }
+      else if o == "e=B" then pure { m with enc := none }
+      else if o.startsWith "e=" then do
+        let es ← parseEntries (o.drop 2).toString
+        pure { m with enc := some es }
+      else none
+
+/-- `err` (archive/zip rejects the bytes), `-` (an archive without members) or members
+joined by `,` -/
+def parseAZip (s : String) : Option (Option (List AMember)) :=
+  if s == "err" then some none
+  else if s == "-" then some (some [])
+  else ((s.splitOn ",").mapM parseAMember).map some
+
+def formatsInOrder : List Format := [.pdf, .docx, .odt, .xlsx, .pptx, .html, .epub]
+
+/-- seven `0`/`1` flags in the order PDF DOCX ODT XLSX PPTX HTML EPUB -/
+def parseAccepts (s : String) : Option (Format → Bool) :=
+  let cs := s.toList
+  if cs.length = 7 ∧ cs.all (fun c => c == '0' || c == '1') then
+    some fun f => match formatsInOrder.idxOf? f with
+      | some i => cs[i]? == some '1'
+      | none => false
+  else none
+
+/-- `M` | `D` | `F/<bytes>/<accepts>/<zip>` -/
+def parseFS (s : String) : Option FileState :=
+  if s == "M" then some .missing
+  else if s == "D" then some .unreadable
+  else match s.splitOn "/" with
+    | ["F", h, a, z] => do
+      let h ← unhexS h; let a ← parseAccepts a; let z ← parseAZip z
+      pure (.file h z a)
+    | _ => none
+
+def parseKind (c : Char) : Option TKind :=
+  if c == 't' then some .text else if c == 'd' then some .document
+  else if c == 'm' then some .markdown else if c == 'f' then some .pdfOnly
+  else if c == 'p' then some .pageCount else if c == 'q' then some .pdfProbe else none
+
+def outcomeName : Outcome → String
+  | .errSet => "errset" | .noFilename => "nofilename" | .openFailed => "openfailed"
+  | .detectFailed => "detectfailed" | .mismatch => "mismatch" | .unsupported => "unsupported"
+  | .drm => "drm" | .readerFailed => "readerfailed" | .notPdf => "notpdf"
+  | .nilReader => "nilreader" | .reached => "reached"
+
+/-- `O<namehex>` `H0|H1` `P` (FromReader) `V<i>|W<i>` (derive ok/bad) `T<kind><i>` `C<i>` `R<j>` -/
+def parseCall (tbl : List FileState) (s : String) : Option Call :=
+  match s.toList with
+  | 'O' :: r => (unhexS (String.ofList r)).map .open
+  | ['H', '1'] => some (.fromHTML true)
+  | ['H', '0'] => some (.fromHTML false)
+  | ['P'] => some .fromReader
+  | 'V' :: r => (String.ofList r).toNat?.map (.derive · false)
+  | 'W' :: r => (String.ofList r).toNat?.map (.derive · true)
+  | 'T' :: k :: r => do let k ← parseKind k; let i ← (String.ofList r).toNat?; pure (.op i k)
+  | 'C' :: r => (String.ofList r).toNat?.map .close
+  | 'R' :: r => do let j ← (String.ofList r).toNat?; let fs ← tbl[j]?; pure (.rewrite fs)
+  | _ => none
+
+def flagsOf (s : St) (i : Nat) : String :=
+  match s.exts[i]? with
+  | some e => s!"/o{if e.opened then 1 else 0}w{if e.owns then 1 else 0}"
+  | none => "/?"
+
+/-- run the history, printing one token per call -/
+def runPrint : St → List Call → List String
+  | _, [] => []
+  | s, c :: cs =>
+    let (s1, r) := step s c
+    let tok := match r, c with
+      | .created i, _ => s!"#{i}" ++ flagsOf s1 i
+      | .closed, .close i => "closed" ++ flagsOf s1 i
+      | .res r, .op i _ => outcomeName r.out ++ flagsOf s1 i
+      | .rewritten, _ => "rw"
+      | _, _ => "bad"
+    tok :: runPrint s1 cs
+
+def mimeCheckName : MimeCheck → String
+  | .ok => "ok" | .invalid => "invalid" | .readErr => "readerr"
+
+def epubOpenName : EpubOpen → String
+  | .ok => "ok" | .invalidArchive => "invalid" | .drm => "drm" | .structure => "structure"
+
+def handleApi (op : String) (args : List String) : String :=
+  match op, args with
+  | "c20.mimecheck", [z] => match parseAZip z with
+    | some (some ms) => mimeCheckName (validateMimetype ms) | _ => "bad-op"
+  | "c20.epubopen", [z, rest] => match parseAZip z with
+    | some zip => epubOpenName (epubOpen zip (rest == "1")) | none => "bad-op"
+  | "c20.zipdrm", [z] => match parseAZip z with
+    | some (some ms) => s!"{(archiveFormat ms).name} {if archiveDRM ms then "drm" else "ok"}" | _ => "bad-op"
+  | "c20.open", [n, fs, k] => match unhexS n, parseFS fs, k.toList with
+    | some n, some fs, [k] => match parseKind k with
+      | some k => outcomeName (openAndRun n fs k).out
+      | none => "bad-op"
+    | _, _, _ => "bad-op"
+  | "c20.fmt", [n, stem] => match n.toNat?, unhexS stem with
+    | some n, some stem =>
+      let f := formatOfNat n
+      s!"{f.name} {hex ((extensionOf f).map UInt8.ofNat)} {(detect (stem ++ extensionOf f)).name}"
+    | _, _ => "bad-op"
+  | "c20.spell", [kind, raw] => match unhexS raw with
+    | some raw =>
+      let out := if kind == "ref" then some (hrefEsc raw) else if kind == "comp" then some (hrefEscAll raw)
+        else if kind == "verbatim" then some (pctEsc (fun _ => true) raw) else none
+      match out with
+      | some o => s!"{hex (o.map UInt8.ofNat)} {isContentFile o}"
+      | none => "bad-op"
+    | none => "bad-op"
+  | "c20.hist", [tbl, calls] => match (tbl.splitOn "|").mapM parseFS with
+    | some (fs0 :: more) => match (calls.splitOn ",").mapM (parseCall (fs0 :: more)) with
+      | some cs => ",".intercalate (runPrint { cur := fs0 } cs)
+      | none => "bad-op"
+    | _ => "bad-op"
+  | _, _ => "bad-op"
+
 def handle (op : String) (args : List String) : String :=
   match op, args with
   | "c20.ext", [n] => match unhexS n with
@@ -72,6 +210,6 @@ def handle (op : String) (args : List String) : String :=
     | some u => toString (isContentFile u) | none => "bad-op"
   | "c20.drm", [ms] => match parseDMembers ms with
     | some ms => if checkForDRM ms then "drm" else "ok" | none => "bad-op"
-  | _, _ => "bad-op"
+  | _, _ => handleApi op args
 
 end Tabula.C20H
